@@ -9,7 +9,7 @@ from engine import xh, symfs
 from engine.universe import World
 
 MINE = {"returned-value", "round-trip:stored-object-not-retrievable", "round-trip:retrieved-bytes-differ-from-stored",
-        "result-class", "store-state:object-bytes-changed", "model:obj", "model:bind",
+        "result-class", "store-state:object-bytes-changed", "model:obj", "model:bind", "referenced-object-removed",
         # the history half of C01 ("until deleted, whatever calls are made on other pids") is inductive: it needs the
         # bookkeeping invariant to be closed under the calls on the other pid as well
         "bookkeeping-not-exact", "other-pid-references-changed", "store-state:unterminated-line",
@@ -57,6 +57,10 @@ def menu_fn(w):
     # the frame half of "until deleted, whatever calls are made on other pids": calls on the other pid
     for k in range(w.NK):
         m.append(step.StoreObj(1, k))
+        # ... including a store of the same content under the other pid that is refused for its size (no checksum:
+        # the duplicate-content branch verifies against the caller's numbers only)
+        m.append(step.StoreObj(1, k, size=len(w.contents[k]) + 1, invalid=True, tagname=", wrong size",
+                               roles="store_object(other pid, content, wrong size)"))
     m.append(step.Delete(1))
     m.append(step.Retrieve(0))
     return m
